@@ -168,6 +168,22 @@ Theorem C15_div_u_on_planar_instance :
 Proof. split; [exact div_u_on_instance_3d | exact div_u_on_instance_2d]. Qed.
 Print Assumptions C15_div_u_on_planar_instance.
 
+(* Scale-free accuracy: check also holds the basis-field values of every divergence row and the
+   row sum of every scalar-gradient row to a PURELY RELATIVE tolerance (no absolute floor), so
+   matrices with tiny entries (micrometre cells, tiny coupling coefficients) are held to the same
+   relative accuracy as unit-scale ones. *)
+Theorem C15_relative_certificate :
+  forall (tol : Q) (I : inst),
+    check tol I = true ->
+    (forall c m, (c < i_nc I)%nat -> (m < nparam I)%nat ->
+       Qabs (rdot (nth c (i_drows I) []) (basis I m) - div_target I c m)
+       <= tol * (rabs (nth c (i_drows I) []) (basis I m) + Qabs (div_target I c m)))
+    /\ (forall q, (q < i_nd I * i_nf I)%nat ->
+       Qabs (rdot (nth q (i_grows I) []) ones - grad_target I q)
+       <= tol * (rabs (nth q (i_grows I) []) ones + Qabs (grad_target I q))).
+Proof. exact relative_certificate. Qed.
+Print Assumptions C15_relative_certificate.
+
 (* With tolerance 0 the checkers give the exact hypotheses of C15_linear_fields / C15_grad_p. *)
 Theorem C15_exact_certificates :
   forall I : inst,
